@@ -37,19 +37,19 @@ func (n *NewCriterionAnchoringApplier) Spec_BlankParams() FunctionParams {
 }
 
 func Spec_addedCriterionName(criteria *model.Criteria, refPointDif model.Alternative) string {
-	return criteria.NotUsedName("__anchoring_criterion_" + refPointDif)
+	return criteria.Spec_NotUsedName("__anchoring_criterion_" + refPointDif)
 }
 
 func (a *additionalCriterionAnchoringState) Spec_newCriterion(ri int, r ReferencePointDifference) *AddedCriterion {
 	if len(a.addedCriteria) == ri {
 		generator := a.generator(a.params.RandomSeed + int64(ri))
-		newCriterionName := addedCriterionName(&a.currentCriteria, r.ReferencePoint)
+		newCriterionName := Spec_addedCriterionName(&a.currentCriteria, r.ReferencePoint)
 		criterion := model.Criterion{
 			Id:          newCriterionName,
 			Type:        a.referenceCriterion.Type,
 			ValuesRange: a.referenceCriterion.ValuesRange,
 		}
-		a.currentCriteria = a.currentCriteria.Add(&criterion)
+		a.currentCriteria = a.currentCriteria.Spec_Add(&criterion)
 		newCriterionParams := (*a.listener).OnCriterionAdded(&criterion, a.referenceCriterion, a.methodParams, generator)
 		addedCriterion := AddedCriterion{
 			Id:                 criterion.Id,
@@ -73,8 +73,8 @@ func (n *NewCriterionAnchoringApplier) Spec_ApplyAnchoring(
 	listener *model.BiasListener,
 ) (*model.DecisionMakingParams, AnchoringApplierResult) {
 	parsedParams := NewCriterionAnchoringApplierParams{}
-	utils.DecodeToStruct(params, &parsedParams)
-	referenceCriterionProvider := n.referenceCriterionManager.ForParams(&params)
+	utils.Spec_DecodeToStruct(params, &parsedParams)
+	referenceCriterionProvider := n.referenceCriterionManager.Spec_ForParams(&params)
 	criteria := *(*listener).RankCriteriaAscending(dmp)
 	state := additionalCriterionAnchoringState{
 		listener:           listener,
@@ -82,21 +82,21 @@ func (n *NewCriterionAnchoringApplier) Spec_ApplyAnchoring(
 		generator:          n.generator,
 		params:             parsedParams,
 		addedCriteria:      []AddedCriterion{},
-		currentCriteria:    *dmp.Criteria.ShallowCopy(),
+		currentCriteria:    *dmp.Criteria.Spec_ShallowCopy(),
 		methodParams:       dmp.MethodParameters,
 	}
-	normalizeCriteriaByTotalValue(criteria)
+	Spec_normalizeCriteriaByTotalValue(criteria)
 	if scaling, ok := boundingsWithScales[state.referenceCriterion.Id]; !ok {
 		panic(fmt.Errorf("scaling for criterion '%s' not found", state.referenceCriterion.Id))
 	} else {
-		newAlternatives := addAnchoringCriteriaToAlternatives(perReferencePointDiffs, &state, &criteria, &scaling)
+		newAlternatives := Spec_addAnchoringCriteriaToAlternatives(perReferencePointDiffs, &state, &criteria, &scaling)
 		result := NewCriterionAnchoringApplierResult{
 			ReferenceCriterion: *state.referenceCriterion,
 			AddedCriteria:      state.addedCriteria,
 		}
 		return &model.DecisionMakingParams{
-			ConsideredAlternatives:    *model.UpdateAlternatives(&dmp.ConsideredAlternatives, &newAlternatives),
-			NotConsideredAlternatives: *model.UpdateAlternatives(&dmp.NotConsideredAlternatives, &newAlternatives),
+			ConsideredAlternatives:    *model.Spec_UpdateAlternatives(&dmp.ConsideredAlternatives, &newAlternatives),
+			NotConsideredAlternatives: *model.Spec_UpdateAlternatives(&dmp.NotConsideredAlternatives, &newAlternatives),
 			Criteria:                  state.currentCriteria,
 			MethodParameters:          state.methodParams,
 		}, result
@@ -109,20 +109,20 @@ func Spec_addAnchoringCriteriaToAlternatives(
 	criteria *model.WeightedCriteria,
 	bounding *BoundingWithScale,
 ) []model.AlternativeWithCriteria {
-	diff := bounding.scaling.ValuesRange.Diff() / 2
+	diff := bounding.scaling.ValuesRange.Spec_Diff() / 2
 	newAlternatives := make([]model.AlternativeWithCriteria, len(*perReferencePointDiffs))
 	for i, p := range *perReferencePointDiffs {
 		alt := p.Alternative
 		for ri, r := range p.ReferencePointsDifference {
-			anchoringCriterion := state.newCriterion(ri, r)
+			anchoringCriterion := state.Spec_newCriterion(ri, r)
 			criterionValue := 0.0
 			for _, c := range *criteria {
-				value := r.Coefficients.Fetch(c.Id)
+				value := r.Coefficients.Spec_Fetch(c.Id)
 				criterionValue += value * c.Weight
 			}
 			newValue := bounding.scaling.ValuesRange.Min + diff + diff*criterionValue
-			newValue = bounding.bounding.BoundValue(newValue)
-			alt = *alt.WithCriterion(anchoringCriterion.Id, newValue)
+			newValue = bounding.bounding.Spec_BoundValue(newValue)
+			alt = *alt.Spec_WithCriterion(anchoringCriterion.Id, newValue)
 			anchoringCriterion.AlternativesValues[alt.Id] = newValue
 			valuesRange := &anchoringCriterion.ValuesRange
 			if i == 0 {
